@@ -426,3 +426,218 @@ def repro_estimator(case, seed):
         if len({repr(o[m]) for o in outs}) > 1:
             findings.append(dict(kind="global-rng-dependence", name=m, what=f"`{m}` after fit depends on np.random.seed(...) although random_state is given"))
     return findings, {}
+
+
+# ---------------------------------------------------------------------------------------------------
+# set_params between calls (C13) and re-used objects (C06)
+ALT = {
+    # estimators
+    "window_size": [2, 3, 5, 4], "only_labeled": [True, False], "n_neighbors": [1, 2, 3], "class_prior": [0.5, 1.0, 0.0],
+    "metric_dict": [{"gamma": 0.25}, {"gamma": 2.0}], "kappa_0": [0.5, 1.0], "nu_0": [2.5, 3.0], "mu_0": [0.5, 0.0],
+    "sigma_sq_0": [0.5, 1.0], "weight_mode": ["similarities", "responsibilities"], "voting": ["soft", "hard"],
+    "tol": [0.01, 0.001], "max_iter": [3, 5], "weights_prior": [0.5, 1.0], "fit_intercept": [True, False],
+    "alpha": [0.1, 0.2], "mode": ["lower", "mean", "upper"], "random_state": [1, 2],
+    # stream strategies / budget managers
+    "budget": [0.25, 0.5], "w": [4, 8], "theta": [0.5, 1.0], "s": [0.125, 0.01], "v": [0.25, 0.5], "delta": [0.5, 1.0],
+    "prior": [0.5, 0.001], "m_max": [2, 3], "density_threshold": [1, 2], "cognition_window_size": [3, 5],
+    "allow_exceeding_budget": [True, False], "force_full_budget": [True, False], "w_tol": [10, 20],
+}
+
+
+def alt_params(obj):
+    """(param, other valid value) pairs for the parameters of `obj` we know alternatives for."""
+    out = []
+    try:
+        cur = obj.get_params(deep=False)
+    except Exception:
+        return out
+    for p, vals in ALT.items():
+        if p not in cur:
+            continue
+        if p == "metric_dict" and cur.get("metric", "rbf") not in ("rbf", None):
+            continue
+        if p == "force_full_budget":
+            continue  # CognitiveDual*.update with force_full_budget=False fails on multi-candidate chunks (other property)
+        for v in vals:
+            if snap.canon(v) != snap.canon(cur[p]):
+                out.append((p, copy.deepcopy(v)))
+                break
+    return out
+
+
+def _window_state(est):
+    """Window of a SlidingWindowClassifier (contents and capacity)."""
+    if not hasattr(est, "X_train_"):
+        return None
+    d = {}
+    for a in ("X_train_", "y_train_", "sample_weight_train_"):
+        v = getattr(est, a, None)
+        d[a] = None if v is None else (getattr(v, "maxlen", "no-deque"), snap.canon(list(v)))
+    return d
+
+
+def _fit_outcome(est, case, data, which):
+    try:
+        _call(est.fit, **case.fit_kwargs(data, which))
+    except Exception as e:
+        return ("raised", type(e).__name__)
+    return ("ok", _predictions(est, case, data))
+
+
+def estimator_setparams_refit(case, seed, rng, n_changes=2):
+    """History (fit, predict*, partial_fit), then set_params(<param>=<other valid value>), then fit:
+    the used object must equal a fresh clone with the same parameters given the same fit; get_params
+    must report exactly what was set; a SlidingWindowClassifier must hold the last window_size
+    samples in deques of that capacity."""
+    findings = []
+    est = case.build()
+    data = case.data(seed)
+    hist = ["fit1"]
+    if _fit_outcome(est, case, data, 1)[0] != "ok":
+        return findings, dict(raised="initial fit")
+    try:
+        _predictions(est, case, data)
+        hist.append("predict*")
+        if case.partial_fit_kwargs is not None and rng.random() < 0.6:
+            _call(est.partial_fit, **case.partial_fit_kwargs(data, 2))
+            hist.append("pfit2")
+    except Exception as e:
+        return findings, dict(raised=f"history: {type(e).__name__}")
+    cands = alt_params(est)
+    if not cands:
+        return findings, dict(no_params=True)
+    rng.shuffle(cands)
+    cands.sort(key=lambda pv: pv[0] == "random_state")     # every class has it: try the specific parameters first
+    changes = cands[:n_changes]
+    info = dict(history=hist, changes=[(p, repr(v)[:30]) for p, v in changes])
+    for p, v in changes:
+        try:
+            est.set_params(**{p: v})
+        except Exception as e:
+            info["set_params_raised"] = f"{p}: {type(e).__name__}"
+            return findings, info
+        par_set = snap.params_snapshot(est)
+        which = rng.choice([1, 2])
+        fresh = clone(est)
+        out_used = _fit_outcome(est, case, data, which)
+        d2 = case.data(seed)
+        out_fresh = _fit_outcome(fresh, case, d2, which)
+        for k in snap.diff_keys(par_set, snap.params_snapshot(est)):
+            findings.append(dict(kind="param-write", name=k, method="fit", what=f"after set_params({p}=...) fit changed get_params()['{k}']"))
+        if out_used[0] != out_fresh[0]:
+            findings.append(dict(kind="stale-after-set_params", name=p, method="fit", what=f"after set_params({p}={v!r}) fit {out_used} on the used object but {out_fresh} on a fresh clone with the same parameters"))
+        elif out_used[0] == "ok":
+            again = clone(est)
+            out_again = _fit_outcome(again, case, case.data(seed), which)
+            if out_again == out_fresh:
+                for m in out_used[1]:
+                    if out_used[1][m] != out_fresh[1][m]:
+                        findings.append(dict(kind="stale-after-set_params", name=p, method="fit", what=f"history {hist}, set_params({p}={v!r}), fit(set {which}): `{m}` of the used object differs from a fresh clone with the same parameters fitted on the same data"))
+                        break
+            wu, wf = _window_state(est), _window_state(fresh)
+            if wu is not None and wu != wf:
+                findings.append(dict(kind="stale-after-set_params", name=p, method="fit", what=f"history {hist}, set_params({p}={v!r}), fit(set {which}): window of the used object (maxlen, contents) {_short(wu.get('X_train_'))} differs from a fresh clone's {_short(wf.get('X_train_'))}"))
+            if wu is not None and "window_size" in est.get_params(deep=False):
+                ws = est.get_params(deep=False)["window_size"]
+                xs = est.X_train_
+                if ws is not None and (len(xs) > ws or xs.maxlen != ws):
+                    findings.append(dict(kind="window-not-last-w", name="window_size", method="fit", what=f"after set_params and fit the window holds {len(xs)} samples in a deque of capacity {xs.maxlen} although window_size={ws}"))
+        if findings:
+            break
+    return findings, info
+
+
+def stream_setparams(case, seed, rng):
+    """query/update, set_params(<param>=<other valid value>), more query/update: no call may change
+    what get_params reports (a used stream strategy legitimately differs from a fresh one: it has
+    spent budget; only the parameter clause applies)."""
+    findings = []
+    qs = case.build()
+    data = case.data(seed)
+    models = case.models() if case.models else {}
+    chunks = data["chunks"] if case.family == "stream" else data["utility_chunks"]
+    changed = None
+    for i, chunk in enumerate(chunks):
+        if i == max(1, len(chunks) // 2):
+            cands = alt_params(qs)
+            if cands:
+                p, v = rng.choice(cands)
+                try:
+                    qs.set_params(**{p: v})
+                    changed = (p, repr(v)[:30])
+                except Exception:
+                    pass
+        par0 = snap.params_snapshot(qs)
+        try:
+            if case.family == "stream":
+                queried, utilities = _call(qs.query, **case.query_kwargs(data, models, chunk))
+                m = "query"
+            else:
+                queried = _call(qs.query_by_utility, **case.query_kwargs(data, chunk))
+                m = "query_by_utility"
+            for k in snap.diff_keys(par0, snap.params_snapshot(qs)):
+                findings.append(dict(kind="param-write", name=k, method=m, what=f"get_params()['{k}'] changed during {m}" + (f" after set_params{changed}" if changed else "")))
+            if findings:
+                break
+            if case.family == "stream":
+                _call(qs.update, **case.update_kwargs(data, models, chunk, queried, utilities))
+            else:
+                _call(qs.update, **case.update_kwargs(data, chunk, queried))
+            for k in snap.diff_keys(par0, snap.params_snapshot(qs)):
+                findings.append(dict(kind="param-write", name=k, method="update", what=f"get_params()['{k}'] changed during update" + (f" after set_params{changed}" if changed else "")))
+        except Exception as e:
+            return findings, dict(raised=f"{type(e).__name__}: {str(e)[:60]}", changed=changed)
+        if findings:
+            break
+    return findings, dict(changed=changed)
+
+
+def _tie_estimator_data(data, level):
+    """Tie-heavy variants: 1 = no labels at all, 2 = test points far outside every kernel."""
+    d = dict(data)
+    if level == 1:
+        for k in ("y1", "y2"):
+            d[k] = np.full_like(np.asarray(data[k], dtype=float), np.nan)
+    d["X_test"] = np.vstack([np.asarray(data["X_test"], dtype=float), np.asarray(data["X_test"], dtype=float) * 1e3 + 1e3])
+    return d
+
+
+def repro_estimator_reuse(case, seed, tie_level=0, n_prior=2):
+    """The result of fit -> predict* is a function of the constructor parameters and the call
+    arguments: an object that has been fitted / asked before gives the same predictions after the
+    same fit as a freshly constructed twin (tie-heavy data make predict consume randomness)."""
+    findings = []
+
+    def mk():
+        d = case.data(seed)
+        return _tie_estimator_data(d, tie_level) if tie_level else d
+
+    try:
+        np.random.seed(GLOBAL_SEEDS[0])
+        fresh = case.build()
+        d = mk()
+        _call(fresh.fit, **case.fit_kwargs(d, 1))
+        p_fresh = _predictions(fresh, case, d)
+        np.random.seed(GLOBAL_SEEDS[1])
+        fresh2 = case.build()
+        d = mk()
+        _call(fresh2.fit, **case.fit_kwargs(d, 1))
+        p_fresh2 = _predictions(fresh2, case, d)
+        np.random.seed(GLOBAL_SEEDS[2])
+        used = case.build()
+        for _ in range(n_prior):
+            d = mk()
+            _call(used.fit, **case.fit_kwargs(d, 1))
+            _predictions(used, case, d)
+        d = mk()
+        _call(used.fit, **case.fit_kwargs(d, 1))
+        p_used = _predictions(used, case, d)
+    except Exception as e:
+        return findings, dict(raised=f"{type(e).__name__}: {str(e)[:100]}")
+    if p_fresh != p_fresh2:
+        return findings, dict(twins_differ=True)      # reported by repro_estimator
+    for m in p_fresh:
+        if p_used[m] != p_fresh[m]:
+            findings.append(dict(kind="reused-object-differs", name=m, what=f"after {n_prior} earlier fit/predict rounds with the same arguments, fit(...).{m}(X_test) differs from a freshly constructed twin" + (" (tie-heavy data)" if tie_level else "")))
+            break
+    return findings, {}
